@@ -159,6 +159,12 @@ def _optimize_contractions(relevant_obj_names: tuple[str],
         # remove the contracted names and indices
         remaining_pos = [pos for pos in range(len(relevant_obj_names))
                          if pos not in group]
+        # an index can only be summed if all objects that hold the index
+        # are part of the contraction (relevant for hyper-contractions, where
+        # a group might not contain all occurences of an index)
+        if any(idx in relevant_obj_indices[pos]
+               for idx in contraction.contracted for pos in remaining_pos):
+            continue
         remaining_names = (contraction.contraction_name,
                            *(relevant_obj_names[pos] for pos in remaining_pos))
         remaining_indices = (contraction.target, *(relevant_obj_indices[pos]
